@@ -53,7 +53,7 @@ type op struct {
 }
 
 type dev struct {
-	Kind string // lag | lagsnap | snap | restartF | restartL | killF | killL | restartAll
+	Kind string // lag | lagsnap | plag | snap | restartF | restartL | killF | killL | pkillF | pkillL | isoL | rpcfail | rpclost
 	I, J int    // lag: isolate before op I, heal before op J (J = len means after the last op)
 }
 
@@ -126,6 +126,13 @@ func devsFor(n, nops int, thorough bool) []dev {
 		out = append(out, dev{"snap", i, 0}, dev{"restartF", i, 0}, dev{"restartL", i, 0}, dev{"killF", i, 0})
 		if i < nops {
 			out = append(out, dev{"isoL", i, 0})
+			// op i is submitted at a follower while the leader's cluster RPC
+			// fails the first J redirected calls (J=2: every try): without
+			// effect (rpcfail) or after committing (rpclost, response lost)
+			out = append(out, dev{"rpcfail", i, 1}, dev{"rpcfail", i, 2}, dev{"rpclost", i, 1})
+			if thorough {
+				out = append(out, dev{"rpclost", i, 2})
+			}
 		}
 		if i > 0 {
 			// the same after a pause: log entries are replayed later than
@@ -176,6 +183,9 @@ func enumerate() []history {
 				for _, d := range devsFor(n, 1, th) {
 					if d.Kind == "lag" || d.Kind == "lagsnap" || d.Kind == "plag" {
 						continue
+					}
+					if (d.Kind == "rpcfail" || d.Kind == "rpclost") && at == "L" {
+						continue // same history as with at == "F"
 					}
 					hs = append(hs, history{N: n, Ops: base, Devs: []dev{d}})
 				}
@@ -255,16 +265,17 @@ type slot struct {
 }
 
 type world struct {
-	t       *testing.T
-	mn      mocknet.Mocknet
-	slots   []*slot
-	ids     []peer.ID
-	scratch string
-	ref     []refOp // operations in submission order (acknowledged, or flagged maybe)
-	oldL    *slot   // isolated former leader (isoL deviation)
-	viol    []finding
-	states  map[string]bool
-	trans   int
+	t         *testing.T
+	mn        mocknet.Mocknet
+	slots     []*slot
+	ids       []peer.ID
+	scratch   string
+	ref       []refOp // operations in submission order (acknowledged, or flagged maybe)
+	oldL      *slot   // isolated former leader (isoL deviation)
+	lostTries int     // rpclost: attempts of the next operation whose response is lost
+	viol      []finding
+	states    map[string]bool
+	trans     int
 }
 
 type refOp struct {
@@ -471,6 +482,22 @@ func (w *world) doOp(o op) bool {
 		err = target.rp.Cons.LogUnpin(ctx, api.PinCid(cidOf(o.C)))
 	}
 	w.trans++
+	// rpclost: every injected failure stands for an attempt that may really
+	// have been committed by the leader although the caller saw an error
+	tries := commitRetries + 1
+	for k := 0; k < w.lostTries && k < tries; k++ {
+		dup := ro
+		dup.maybe = true
+		w.ref = append(w.ref, dup)
+	}
+	if w.lostTries >= tries {
+		// no attempt beyond the lost ones was made
+		if err == nil {
+			w.fail("ack-without-successful-attempt", "operation %v acknowledged although every redirected attempt returned an error", o)
+		}
+		w.viol = append(w.viol, finding{"info:op-error", fmt.Sprintf("%v failed: %v", o, err)})
+		return true
+	}
 	if err != nil {
 		ro.maybe = true
 		w.ref = append(w.ref, ro)
@@ -645,7 +672,29 @@ func run(t *testing.T, h history) (outcome string, viol []finding, states map[st
 						o.At = "OL"
 					}
 				}
-				if !w.doOp(o) {
+				var inj *clus.ConsSvc
+				for _, d := range h.Devs {
+					if (d.Kind == "rpcfail" || d.Kind == "rpclost") && d.I == i {
+						if l := w.leader(); l != nil {
+							inj = l.rp.Svc
+							inj.FailAfter.Store(d.Kind == "rpclost")
+							inj.FailN.Store(int32(d.J))
+							o.At = "F"
+							if d.Kind == "rpclost" {
+								w.lostTries = d.J
+							}
+						}
+					}
+				}
+				ok := w.doOp(o)
+				w.lostTries = 0
+				if inj != nil {
+					inj.FailN.Store(0)
+					if inj.Failed.Load() == 0 {
+						w.viol = append(w.viol, finding{"info:rpc-fault-not-reached", "the redirected call did not reach the leader that was set to fail"})
+					}
+				}
+				if !ok {
 					stop = true
 				}
 				w.settle()
